@@ -314,6 +314,9 @@ AST_TO_REVERSE = {
     for node_cls, (op, _, _) in COMPARATOR_TO_OPERATOR.items()
 }
 
+# The comparator to use when the operands of a comparison are exchanged.
+_MIRRORED_COMPARATOR = {ast.Lt: ast.Gt, ast.LtE: ast.GtE, ast.Gt: ast.Lt, ast.GtE: ast.LtE}
+
 SAFE_DECORATORS_FOR_ARGSPEC_TO_RETVAL = [KnownValue(asynq.asynq), KnownValue(property)]
 if sys.version_info < (3, 11):
     SAFE_DECORATORS_FOR_ARGSPEC_TO_RETVAL.append(KnownValue(asyncio.coroutine))
@@ -3560,8 +3563,9 @@ class NameCheckVisitor(node_visitor.ReplacingNodeVisitor):
         elif isinstance(rhs_constraint, PredicateProvider) and isinstance(
             lhs, KnownValue
         ):
+            # The literal is on the left: `2 < len(x)` constrains x like `len(x) > 2`.
             constraint = self._constraint_from_predicate_provider(
-                rhs_constraint, lhs.val, op
+                rhs_constraint, lhs.val, _MIRRORED_COMPARATOR.get(type(op), type(op))()
             )
         elif isinstance(rhs, KnownValue):
             constraint = self._constraint_from_compare_op(
